@@ -73,8 +73,13 @@ func (f *Func) Init(raw string) error {
 	if f.Complete, err = url.QueryUnescape(raw); err != nil {
 		return fmt.Errorf("bad function reference: %w", err)
 	}
-	// Update the index in the unescaped string.
-	endPkg += len(f.Complete) - len(raw)
+	// Update the index in the unescaped string. Only the escapes located in
+	// the package part shift it.
+	if endPkg > 0 {
+		if pkg, err := url.QueryUnescape(raw[:endPkg]); err == nil {
+			endPkg = len(pkg)
+		}
+	}
 	if endPkg != -1 {
 		f.ImportPath = f.Complete[:endPkg]
 	}
